@@ -139,6 +139,15 @@ pub fn pol_name(p: PolarizationType) -> &'static str {
   }
 }
 
+/// relative bound for "dir_i ∥ c": the statement's 1e-9, plus the rounding the code's own radicand
+/// `arg = ‖(λs/2π)c‖²` necessarily carries when the poling nearly cancels the closing vector: `arg` is a sum of
+/// terms of size (λs|k|/2π)², so its relative error is ~ε(|k|/‖c‖)², and so is that of sin θ_i (negligible —
+/// 1e-14 — unless ‖c‖ ≪ |k|; a case with ‖c‖ = 1.6e-4|k| measured 1.2e-9)
+pub fn par_tol(k_norm: f64, c_norm: f64) -> f64 {
+  let r = k_norm / c_norm;
+  1e-9 + 16.0 * f64::EPSILON * r * r
+}
+
 /// wave vector of a beam computed from first principles: unit direction from the polar angles, index from
 /// `index_along` for the beam's polarization, magnitude n ω / c
 pub fn indep_k(cs: &CrystalSetup, theta: f64, phi: f64, pol: PolarizationType, omega: f64) -> Vector3<f64> {
@@ -333,7 +342,7 @@ fn case(ctx: &mut Ctx, spdc0: &SPDC, cs: &CrystalSetup, lp: f64, ls: f64, ths: f
   if c.z > 0.0 {
     ctx.count("idler/closing/forward");
     let cross = di.cross(&c).norm();
-    let ok = cross <= 1e-9 * c.norm() && di.dot(&c) > 0.0;
+    let ok = cross <= par_tol(scale, c.norm()) * c.norm() && di.dot(&c) > 0.0;
     ctx.s("C03.idler", ok, &format!("idler/parallel{}", neg), &format!("{} cross_over_norm={:e} theta_i={:e}", what, cross / c.norm(), th_of(&idler)));
     if th_of(&signal) == 0.0 {
       ctx.count("idler/collinear");
@@ -341,7 +350,7 @@ fn case(ctx: &mut Ctx, spdc0: &SPDC, cs: &CrystalSetup, lp: f64, ls: f64, ths: f
     }
     // residual mismatch parallel to the idler
     let res = dk.cross(&di).norm();
-    ctx.s("C03.idler", res <= 1e-9 * c.norm(), &format!("idler/residual-parallel{}", neg), &format!("{} resid_cross={:e} c={:e}", what, res, c.norm()));
+    ctx.s("C03.idler", res <= par_tol(scale, c.norm()) * c.norm(), &format!("idler/residual-parallel{}", neg), &format!("{} resid_cross={:e} c={:e}", what, res, c.norm()));
   } else {
     ctx.count("idler/closing/backward");
   }
@@ -441,7 +450,7 @@ fn check_spdc(ctx: &mut Ctx, spdc: &SPDC, route: &str, hist: &str) {
     let cross = di.cross(&c).norm();
     ctx.s(
       "C03.idler",
-      cross <= 1e-9 * c.norm() && di.dot(&c) > 0.0,
+      cross <= par_tol(scale, c.norm()) * c.norm() && di.dot(&c) > 0.0,
       &sig("parallel"),
       &format!("{} cross_over_norm={:e} theta_i={:e}", what, cross / c.norm(), th_of(idler)),
     );
@@ -449,7 +458,7 @@ fn check_spdc(ctx: &mut Ctx, spdc: &SPDC, route: &str, hist: &str) {
       ctx.s("C03.idler", th_of(idler).sin().abs() <= 1e-9 && th_of(idler).cos() > 0.0, &sig("collinear"), &format!("{} theta_i={:e}", what, th_of(idler)));
     }
     let res = dk.cross(&di).norm();
-    ctx.s("C03.idler", res <= 1e-9 * c.norm(), &sig("residual-parallel"), &format!("{} resid_cross={:e} c={:e}", what, res, c.norm()));
+    ctx.s("C03.idler", res <= par_tol(scale, c.norm()) * c.norm(), &sig("residual-parallel"), &format!("{} resid_cross={:e} c={:e}", what, res, c.norm()));
   }
 }
 
